@@ -560,6 +560,21 @@ def install(eng):
 
     eng.builtin_names['n_added'] = PyObj('builtin', b_n_added)
 
+    def b_added_index(e, args, kwargs, fr, node):
+        """added_index('name'): position, among the handler registrations of this activation, of the first one naming
+        `name` (-1 when there is none) - for clauses about the ORDER in which handlers are chained"""
+        name = B.fmt_of(e, args[0], node.args[0], fr)
+        i = 0
+        for ev in (e.st.trace or []):
+            if ev[0] == 'Add':
+                cbs = str(ev[2]).split(':', 1)[1].split(',') if ':' in str(ev[2]) else []
+                if any(c_ == name or c_.endswith('.' + name) or c_.endswith('<' + name + '>') for c_ in cbs):
+                    return vint(i)
+                i += 1
+        return vint(-1)
+
+    eng.builtin_names['added_index'] = PyObj('builtin', b_added_index)
+
     def b_promise(e, args, kwargs, fr, node):
         d = args[0]
         if d.ty[0] == 'opt':
